@@ -5,14 +5,17 @@ import json, os, sys, glob
 sys.path.insert(0, os.path.join(os.path.dirname(os.path.abspath(__file__)), "..", "harness"))
 import cover
 V = os.path.join(os.path.dirname(os.path.abspath(__file__)), "..", "..")
-hits, wraps, per = {}, {}, {}
+hits, wraps, per, branches = {}, {}, {}, {}
 for p in sorted(glob.glob(os.path.join(V, "build", "cover", "C*.json"))):
     d = json.load(open(p))
-    per[os.path.basename(p)[:-5]] = sum(len(v) for k, v in d.items() if k != "#wraps")
+    per[os.path.basename(p)[:-5]] = sum(len(v) for k, v in d.items() if not k.startswith("#"))
     for m, ls in d.items():
         if m == "#wraps":
             for k, (a, b) in ls.items():
                 c = wraps.setdefault(int(k), [0, 0]); c[0] += a; c[1] += b
+        elif m == "#branches":
+            for mod, q, l, o, dsts in ls:
+                branches.setdefault((mod, q, l, o), set()).update(dsts)
         else:
             hits.setdefault(m, set()).update(ls)
 print("checks with coverage data:", per)
@@ -33,3 +36,9 @@ print("TOTAL %d/%d" % (tot_h, tot_e))
 ws = cover.wrap_sites()
 print("printer bracket sites: %d; never saw a child that needs brackets: %s" % (len(ws), [l for l in ws if wraps.get(l, [0, 0])[1] == 0]))
 print("                       never saw a child that needs none: %s" % [l for l in ws if wraps.get(l, [0, 0])[0] == 0])
+
+ow = sorted((m, l, q, sorted(d // 100000 for d in ds)) for (m, q, l, o), ds in branches.items() if len(ds) < 2 and any(w in m for w in want))
+print("branch instructions executed: %d, taken both ways: %d; one way only (in the modules listed above): %d" % (len(branches), sum(1 for d in branches.values() if len(d) >= 2), len(ow)))
+for m, l, q, d in ow:
+    src = open(os.path.join(cover.PKG, m), encoding="utf-8").read().split("\n")
+    print("   %s:%d [%s] only -> line %s   | %s" % (m, l, q.split(".")[-1], d, src[l - 1].strip()[:110]))
